@@ -20,7 +20,7 @@ def run(tier):
     for data in (10, 12, 20):
         scen.append({"strategy": "expand", "data": data, "max": 64, "mininc": 4, "producers": 2, "rows": 0, "samplerace": True})
     # free-running
-    for i in range(40 if quick else 400):
+    for i in range(40 if quick else 1500):
         strat = ["expand", "drop", "block"][i % 3]
         scen.append({"strategy": strat, "data": rng.choice([1, 2, 4, 16]), "max": rng.choice([32, 40, 64]), "mininc": rng.choice([1, 2, 4]), "producers": rng.choice([1, 2, 4, 8]),
                      "rows": rng.choice([50, 200] if quick else [200, 1000, 5000]), "slowsink": rng.choice([0, 0, 20, 100]), "seed": rng.randrange(1 << 30), "perturb": True})
